@@ -142,19 +142,51 @@ def wRun : List (SeqResp × ExecResp) :=
   [(.batch [[1]] 200 [], .ok), (.batch [[2]] 300 [], .ok), (.batch [] 250 [], .ok)]
 def wProbe : SeqResp × ExecResp := (.batch [[3]] 400 [], .ok)
 
-/-- **The full liveness statement is false of the current code** (kernel-checked witness): the empty batch with a
-regressed timestamp is saved early, fails validation, and is re-used at that height for ever.  Replayed on the
-real node by stream C01 (`C01/liveness/pending-empty-block-time-regression`). -/
-theorem C01_recovers_fails : ¬ C01_recovers_full := by
-  intro h
-  have := h wCfg wRun wProbe wProbe (by decide) rfl (by decide) rfl (by decide +kernel) (by decide +kernel)
-  revert this
+/-- The witness that refuted the full statement before the repair `fix: apply the timestamp monotonicity guard
+to empty batches too` (/repo 44100eb): it now ends in `errTime` at the third response and nothing is saved. -/
+theorem C01_old_witness_recovers : (run wCfg (freshNode wCfg) wRun).store.height <
+    (run wCfg (freshNode wCfg) (wRun ++ [wProbe, wProbe])).store.height := by
   decide +kernel
 
+/-- every node reachable from a fresh start satisfies `Live`: the production invariant, and a block waiting at
+`height + 1` (early-saved before a failed execution, or the genesis block) is one that `execValidate` will accept:
+right chain id, app hash of the current state, the genesis proposer, data commitment = data hash and — what repair
+44100eb guarantees — a timestamp not before the last block's -/
+theorem reachable_live (c : Cfg) (hpos : 1 ≤ c.initialHeight) (rs : List (SeqResp × ExecResp)) :
+    Live c (run c (freshNode c) rs) := run_live (freshNode_live c hpos) rs
 
-/-- **Partial liveness** (everything except the refuted case): whenever no block is waiting at `height + 1`
-— in particular after every successful step — one well-formed answer raises the height.  The excluded case is
-exactly a stored block at `height + 1` (the witness above: it may be invalid for ever). -/
+/-- **One well-formed answer suffices.**  From every `Live` node — in particular every reachable one — a batch that
+is not timestamped before the last block, executed successfully, commits a block: the step returns `ok` and the
+height rises by exactly one, whether a block was waiting at `height + 1` ("using pending block") or not. -/
+theorem C01_one_answer_commits {c : Cfg} {n : Node} (hl : Live c n)
+    (hmax : c.maxPending = 0) (hsg : c.signerAddr = c.proposerAddr) (hne : c.proposerAddr ≠ [])
+    (r : SeqResp × ExecResp) (hw : WellFormed n r) :
+    (publish c n r.1 r.2).2.2 = .ok ∧ (publish c n r.1 r.2).1.store.height = n.store.height + 1 := by
+  obtain ⟨resp, e⟩ := r
+  cases resp with
+  | err => exact absurd hw (by simp [WellFormed])
+  | absent => exact absurd hw (by simp [WellFormed])
+  | batch txs ts bd =>
+    cases e with
+    | fail => exact absurd hw (by simp [WellFormed])
+    | ok => exact live_commits hl hmax hsg hne txs ts bd hw
+
+/-- **Liveness, full statement**: no sequence of responses leaves the node permanently unable to produce blocks —
+from every node reachable from a fresh start by any response sequence, two consecutive well-formed answers raise
+the height (the first one already does; the second cannot lower it). -/
+theorem C01_recovers : C01_recovers_full := by
+  intro c rs r1 r2 hpos hsg hne hmax hw1 _
+  have hl := reachable_live c hpos rs
+  have hrun : run c (freshNode c) (rs ++ [r1, r2]) =
+      (publish c (publish c (run c (freshNode c) rs) r1.1 r1.2).1 r2.1 r2.2).1 := by
+    simp [run, List.foldl_append]
+  rw [hrun]
+  generalize run c (freshNode c) rs = n at hl hw1 ⊢
+  obtain ⟨_, h1⟩ := C01_one_answer_commits hl hmax hsg hne r1 hw1
+  have h2 := (publish_store (publish_inv hl.toInv r1.1 r1.2) r2.1 r2.2).1
+  omega
+
+/-- the case "nothing stored at `height + 1`" (all that could be proved before the repair) only needs `Inv` -/
 theorem C01_recovers_partial {c : Cfg} {n : Node} (hi : Inv c n)
     (hnone : n.store.getBlock (n.store.height + 1) = none)
     (hmax : c.maxPending = 0) (hsg : c.signerAddr = c.proposerAddr) (hne : c.proposerAddr ≠ [])
@@ -162,6 +194,15 @@ theorem C01_recovers_partial {c : Cfg} {n : Node} (hi : Inv c n)
     (publish c n (.batch txs ts bd) .ok).2.2 = .ok ∧
     (publish c n (.batch txs ts bd) .ok).1.store.height = n.store.height + 1 :=
   fresh_commits hi hnone hmax hsg hne txs ts bd hts
+
+/-- non-vacuity of `C01_one_answer_commits` in the interesting case: a reachable node with a block **waiting** at
+`height + 1` (two blocks committed, then a batch whose execution fails after the early save) -/
+def pRun : List (SeqResp × ExecResp) := wRun.take 2 ++ [(.batch [[9]] 350 [], .fail)]
+
+example : (run wCfg (freshNode wCfg) pRun).store.height = 2 ∧
+    ((run wCfg (freshNode wCfg) pRun).store.getBlock 3).isSome = true ∧
+    WellFormed (run wCfg (freshNode wCfg) pRun) wProbe ∧
+    (run wCfg (freshNode wCfg) (pRun ++ [wProbe])).store.height = 3 := by decide +kernel
 
 /-- non-vacuity: the hypotheses of the theorems above are met by a concrete reachable node that has
 committed two blocks -/
